@@ -9,6 +9,7 @@ for d in seeded/${1:-*}/; do
   if ! (cd "$scr" && patch -p1 -s < "/verif/$d/patch.diff"); then echo "PATCH-FAILED $name"; rm -rf "$scr"; continue; fi
   chk=$(VERIF_REPO="$scr" ./check "$prop" quick 2>&1)
   nv=$(echo "$chk" | grep -c '^VIOLATION')
+  echo "$chk" | grep -q ' quick: [0-9]* obligations' || { echo "CHECK-ERROR $name: $(echo "$chk" | tail -2)"; nv=-1; }
   obl=$(echo "$chk" | grep '^VIOLATION' | sed 's/.*obligation=//' | head -5 | tr '\n' ';')
   python3 - "$d/meta.json" "$nv" "$obl" "$prop" <<'PY'
 import json,sys
